@@ -92,6 +92,29 @@ theorem C06_vecdeque_end_to_end (c : Ctx) (rec : Rec) (sv : Val) (id : Nat) (tps
       some (.specVec true sv (vecStructure c sv.tyName inner items cap tps)) :=
   deque_end_to_end c rec sv id tps inner el n cap head p buf items hT hlen hn hel hel0 hcap hcg hc0 hnc hhead hp hrd hbuf hil hitems
 
+/-- **C06_hashmap_end_to_end**: header fields found; the loaded 16-byte groups are the table's control bytes (with the
+    tail invariant); the element decoder shows the pair `(k j, v j)` on the image of bucket `j`, located `(j + 1) * size`
+    below the control bytes ⇒ the map is shown as exactly the pairs of the full buckets `j < buckets`, each once, in index
+    order: tombstones and empty buckets are not shown, nothing is invented. -/
+theorem C06_hashmap_end_to_end (c : Ctx) (rec : Rec) (sv : Val) (id : Nat) (tps : List (String × Option Nat))
+    (ctrlp mask kv kvSize : Nat) (ctrl : Nat → Nat) (tty : String) (tnames : List (Option String)) (tvals : List Val)
+    (ttps : List (String × Option Nat)) (loaded : List Bytes) (k v : Nat → Val)
+    (hctrl : assumePointer sv "pointer" = some ctrlp)
+    (hmask : assumeScalarNumber sv "bucket_mask" = some (mask : Int))
+    (htable : assumeStruct sv "table" = some (.struct tty tnames tvals ttps))
+    (hkv : lookupTParam ttps "T" = some kv) (hsz : c.size kv = some kvSize)
+    (hload : (List.range (if mask + 1 ≤ 16 then 1 else (mask + 1 + 15) / 16)).mapM (fun g => c.rd (ctrlp + 16 * g) 16) = some loaded)
+    (hl : ∀ g, (g = 0 ∨ 16 * g < mask + 1) → loaded.getD g [] = groupAt ctrl g)
+    (tail : ∀ j, mask + 1 ≤ j → j < 16 * ((mask + 1 + 15) / 16) → ctrl j ≥ 128)
+    (hpairs : ∀ j, j < mask + 1 → ctrl j < 128 → ∃ ty names tp,
+      rec ((c.rd (ctrlp - (j + 1) * kvSize) kvSize).map fun bs => ⟨bs, some (ctrlp - (j + 1) * kvSize)⟩) kv =
+        some (.struct ty names [k j, v j] tp)) :
+    specialize c rec .hashmap sv id tps =
+      some (.specMap false sv (((List.range (mask + 1)).filter (isFull ctrl)).map k)
+                               (((List.range (mask + 1)).filter (isFull ctrl)).map v)) :=
+  hashmap_end_to_end c rec sv id tps ctrlp mask kv kvSize ctrl tty tnames tvals ttps loaded k v
+    hctrl hmask htable hkv hsz hload hl tail hpairs
+
 /-- tests (compiled evaluation, not theorems): the header hypotheses are satisfiable — a `VecDeque`-shaped structure value
     whose fields the breadth-first lookup finds -/
 def exDeque : Val := .struct "VecDeque<u8>" [some "head", some "len", some "buf"]
